@@ -79,15 +79,29 @@ def run_case(check, seed, opts, replay=None, strict=False, trace=False):
 def _worker_chunk(args):
     seeds, opts_list, wall_cap = args
     faulthandler.dump_traceback_later(wall_cap, exit=True)
+    if os.environ.get("VERIF_DEBUG_SIGUSR1"):
+        import signal
+        faulthandler.register(signal.SIGUSR1, all_threads=True)
     import gc
     gc.disable()
     check = _CHECK
     out = {"runs": 0, "nontrivial": 0, "digests": [], "steps": 0,
            "sim_s": 0.0, "notes": {}, "violations": [], "harness": [],
            "samples": [], "nt_digests": [], "extra": {}}
+    dbg = os.environ.get("VERIF_DEBUG_SEEDS")
     for seed, opts in zip(seeds, opts_list):
+        if dbg:
+            with open("%s.%d" % (dbg, os.getpid()), "a") as f:
+                f.write("%d %r\n" % (seed, opts))
         res = run_case(check, seed, opts)
-        gc.collect()
+        if dbg:
+            _t = time.time()
+            _n = gc.collect()
+            with open("%s.%d" % (dbg, os.getpid()), "a") as f:
+                f.write("   gc %.3fs collected %d objects %d\n" %
+                        (time.time() - _t, _n, len(gc.get_objects())))
+        else:
+            gc.collect()
         if "harness_error" in res:
             out["harness"].append((seed, opts, res["harness_error"]))
             continue
@@ -290,7 +304,7 @@ def main(check, argv=None):
         min(16, os.cpu_count() or 1)
     known = _known_findings(prop)
     t0 = time.time()
-    wall_cap = int(max(120, budget * 3))
+    wall_cap = int(os.environ.get("VERIF_WALL_CAP", max(120, budget * 3)))
 
     agg = {"runs": 0, "nontrivial": 0, "steps": 0, "sim_s": 0.0, "notes": {},
            "samples": [], "extra": {}}
@@ -304,7 +318,7 @@ def main(check, argv=None):
     sweep_cases = list(check.sweep(tier)) if hasattr(check, "sweep") else []
     n_sweep = len(sweep_cases)
 
-    chunk = getattr(check, "CHUNK", 20)
+    chunk = getattr(check, "RUNNER_CHUNK", 20)
     max_runs = args.runs
     ctx = multiprocessing.get_context("fork")
     next_index = 0
@@ -372,6 +386,11 @@ def main(check, argv=None):
                     must_finish_sweep = next_index < n_sweep
                     if time.time() - t0 > budget and not must_finish_sweep:
                         stop = True
+                        if os.environ.get("VERIF_DEBUG_SEEDS"):
+                            sys.stderr.write("DEBUG stop at %.1fs next_index=%d"
+                                             " pending=%d\n" %
+                                             (time.time() - t0, next_index,
+                                              len(pending)))
                         break
                     task = make_task()
                     if task is None:
@@ -413,6 +432,12 @@ def main(check, argv=None):
         return 2
 
     wall = time.time() - t0
+    # scratch directories of killed workers (world D) must not pile up
+    import glob
+    import shutil
+    for d in glob.glob(os.path.join(__import__("tempfile").gettempdir(),
+                                    "mwsim-%d-*" % os.getpid())):
+        shutil.rmtree(d, ignore_errors=True)
     if harness:
         for seed, opts, text in harness[:5]:
             print("HARNESS-ERROR seed=%s opts=%s\n%s" % (seed, opts, text))
